@@ -24,6 +24,9 @@ type strikesCase struct {
 	w        *world
 	s        int
 	offences [2]string // "empty-txnset" | "weak-header" | "invalid-outline"
+	// fail: which Ban calls the victim's peer store answers with an error: "" none, "subnet" the
+	// calls for a CIDR entry (the per-peer ones succeed), "all" every call, "second" the second call
+	fail string
 }
 
 func (sc *strikesCase) run(ip string) *vh.Case {
@@ -33,6 +36,14 @@ func (sc *strikesCase) run(ip string) *vh.Case {
 	main := w.main
 	victim := nt.NewNode(ip + ".1")
 	victim.Load(main.Blocks[:sc.s])
+	switch sc.fail {
+	case "subnet":
+		victim.Store.FailBans(func(addr string, n int) bool { return strings.Contains(addr, "/") })
+	case "all":
+		victim.Store.FailBans(func(addr string, n int) bool { return true })
+	case "second":
+		victim.Store.FailBans(func(addr string, n int) bool { return n == 2 })
+	}
 	trace := traceWork(victim)
 	startWork := netx.WorkOf(victim.CM.TipState().TotalWork)
 	hon := nt.NewNode(ip + ".3")
@@ -196,6 +207,21 @@ func strikesJobs(w *world) []job {
 	} {
 		sc := &strikesCase{name: fmt.Sprintf("two-offences-one-address-%s+%s-at-%d", x.offs[0], x.offs[1], x.s),
 			tags: []string{"kind:honest+byzantine", "byz:two-peers-one-address", "strikes:subnet-limit-reached", regime(w, x.s)}, w: w, s: x.s, offences: x.offs}
+		jobs = append(jobs, job{name: sc.name, quick: true, run: sc.run})
+	}
+	// the victim's peer store fails: a dependency's failure in the middle of reporting
+	for _, x := range []struct {
+		s    int
+		offs [2]string
+		fail string
+	}{
+		{14, [2]string{"weak-header", "weak-header"}, "subnet"},
+		{allow - 2, [2]string{"empty-txnset", "weak-header"}, "subnet"},
+		{14, [2]string{"invalid-outline", "empty-txnset"}, "all"},
+		{allow + 1, [2]string{"empty-txnset", "empty-txnset"}, "second"},
+	} {
+		sc := &strikesCase{name: fmt.Sprintf("two-offences-one-address-%s+%s-at-%d-store-fails-%s", x.offs[0], x.offs[1], x.s, x.fail),
+			tags: []string{"kind:honest+byzantine", "byz:two-peers-one-address", "peer-store:ban-fails-" + x.fail, regime(w, x.s)}, w: w, s: x.s, offences: x.offs, fail: x.fail}
 		jobs = append(jobs, job{name: sc.name, quick: true, run: sc.run})
 	}
 	return jobs
